@@ -431,6 +431,12 @@ func (r *runner) step(i int, o *sop) (e ev, stop bool) {
 		}
 		e["ver"] = p.Ver // the version the write got (0/-1 = nothing was written)
 		e["wrote"] = p.RecSize > 0 // a record was appended for this write
+		e["c"], e["off"] = -1, 0
+		if p.RecSize > 0 { // where the index points now (layout conformance / drift only)
+			if _, mpos, merr := r.store.Get(ki, true); merr == nil {
+				e["c"], e["off"] = mpos.ChunkID, int(mpos.Offset)/256
+			}
+		}
 	case "get":
 		vs.setProc("c1")
 		g := r.get(o.K)
